@@ -147,6 +147,26 @@ def long_sequences(ri, rn, ctx):
         yield [w[-1]] + w
 
 
+def near_miss_sequences(ri, rn, ctx):
+    """foreign names that are ALMOST names of the rule (padding, case, truncation, an extra character): a valid word with one child
+    renamed that way is outside the language"""
+    s = ri.spec[rn]
+    rng = ctx.rng
+    names = list(dict.fromkeys(lang.names(s)))
+    if not names:
+        return
+    for _ in range(3 if ctx.tier == "quick" else 12):
+        w = lang.sample_word(s, rng, rep=1) or lang.nonempty_word(s)
+        if not w:
+            continue
+        i = rng.randrange(len(w))
+        n = w[i]
+        v = rng.choice([n + " ", " " + n, "\t" + n, n + "\n", n.upper(), n.lower() if n.lower() != n else n + "_", n[:-1], n + "x", n + n, "\xa0" + n, ""])
+        if v in names:
+            continue
+        yield w[:i] + [v] + w[i + 1:]
+
+
 def run_one(ri, rn, kids):
     impl.reset()
     elem = ri.elem_for(rn)
@@ -248,6 +268,8 @@ def run(ctx):
         if ri.spec[rn] is None:
             continue
         for w in sequences(ri, rn, ctx):
+            cases.append((rn, w))
+        for w in near_miss_sequences(ri, rn, ctx):
             cases.append((rn, w))
         nlong = 0
         for w in long_sequences(ri, rn, ctx):
